@@ -347,6 +347,22 @@ func ruleR17(c *Ctx) {
 				c.Bad(f, call, desc, "goroutine owning a sender handle must be resolvable", "goroutine root unresolved at "+p.Pos(l.Site.Stmt.Pos()))
 				return true
 			}
+			// every path from the registration to an exit of this function hands the handle over (or releases it)
+			if stray := g.MustPassBeforeExit(rpt, false, func(n ast.Node) bool {
+				if n == ast.Node(l.Site.Stmt) {
+					return true
+				}
+				return nodeHasCall(p, n, func(c2 *ast.CallExpr) bool {
+					if !isSenderDone(in, c2) {
+						return false
+					}
+					s, ok := unparen(c2.Fun).(*ast.SelectorExpr)
+					return ok && objOf(in, s.X) == types.Object(hv)
+				})
+			}); len(stray) > 0 {
+				c.Bad(f, call, desc, "a registered sender handle reaches the goroutine that releases it on every path; a path that registers and then leaves without starting that goroutine keeps the tracer's sender count above zero forever, so the tracer never terminates", "path from the registration to an exit that neither starts the owning goroutine nor calls Done: "+witnessLines(g, stray[:1]))
+				return true
+			}
 			// variable inside root
 			var rv *types.Var
 			for pv, arg := range l.Params {
